@@ -15,6 +15,9 @@ class QuaHoldList(HoldList[QuaHold], QuaNoteList[QuaHold]):
     @staticmethod
     def from_yaml(dicts: List[Dict[str]]) -> QuaHoldList:
         df = pd.DataFrame(dicts)
+        # StartTime may be omitted by every hold (it defaults to 0)
+        df = df.reindex(df.columns.union(["StartTime"], sort=False), axis=1)
+        df["StartTime"] = df["StartTime"].fillna(0)
         df["EndTime"] -= df["StartTime"]
         df = df.rename(
             dict(
@@ -33,6 +36,8 @@ class QuaHoldList(HoldList[QuaHold], QuaNoteList[QuaHold]):
         df.offset = df.offset.fillna(0)
         df.column = df.column.fillna(0)
         df.length = df.length.fillna(0)
+        # An omitted KeySounds key is an empty list, not NaN
+        df.keysounds = df.keysounds.apply(lambda x: x if isinstance(x, list) else [])
         return QuaHoldList(df)
 
     def to_yaml(self):
